@@ -24,6 +24,7 @@
 #include <potassco/convert.h>
 #include <potassco/string_convert.h>
 #include <algorithm>
+#include <climits>
 #include <cstring>
 #include <vector>
 #include <map>
@@ -111,6 +112,7 @@ struct SmodelsConvert::SmData {
 		for (const WeightLit_t* it = begin(lits); it != end(lits); ++it) {
 			WeightLit_t x = *it;
 			if (weight(x) < 0) {
+				POTASSCO_REQUIRE(weight(x) != INT_MIN, "minimize weight out of range for smodels format");
 				x.lit = -x.lit;
 				x.weight = -x.weight;
 			}
